@@ -48,6 +48,7 @@ var c07Vars = map[string]c07Var{
 	"f": {"float", 2.5}, "fz": {"float", 0.0}, "f32": {"fnoeq", float32(0.5)},
 	"s": {"str", "ab"}, "e": {"str", ""}, "t": {"bool", true}, "fl": {"bool", false},
 	"il": {"ilist", []int{1, 2, 3}}, "sl": {"slist", []string{"a", "b", ""}}, "el": {"ilist", []int{}},
+	"sm": {"smap", map[string]int{"a": 1, "ab": 0, "": 2}}, "im": {"imap", map[int]string{1: "x", 3: "", 0: "z"}}, "em": {"smap", map[string]int{}},
 }
 
 var c07IntVars = []string{"i3", "z", "i8", "u8", "big", "i16", "i32", "i64", "u", "u16", "u32", "u64"}
@@ -110,6 +111,11 @@ func binType(op string, l, r *Ex) string {
 		}
 		// membership in a list: right side must be a plain list variable
 		if r.Op == "var" && (a == "int" && b == "ilist" || a == "str" && b == "slist") {
+			return "bool"
+		}
+		// membership in a map: is it a key (the key's Go type must be the map's: string results are
+		// strings; integer results are int unless a bare variable of another width is used)
+		if r.Op == "var" && (a == "str" && b == "smap" || a == "int" && b == "imap" && !(l.Op == "var" && l.Name != "i3" && l.Name != "z")) {
 			return "bool"
 		}
 	case "and", "or":
@@ -244,6 +250,10 @@ func c07Eval(e *Ex) (c07V, error) {
 		case []int:
 			return c07V{T: "list", N: len(x)}, nil
 		case []string:
+			return c07V{T: "list", N: len(x)}, nil
+		case map[string]int:
+			return c07V{T: "list", N: len(x)}, nil
+		case map[int]string:
 			return c07V{T: "list", N: len(x)}, nil
 		}
 		panic("bad var " + e.Name)
@@ -381,6 +391,12 @@ func c07Eval(e *Ex) (c07V, error) {
 					return b(true)
 				}
 			}
+		case map[string]int:
+			_, has := xs[l.S]
+			return b(has)
+		case map[int]string:
+			_, has := xs[int(l.I)]
+			return b(has && int64(int(l.I)) == l.I)
 		}
 		return b(false)
 	}
@@ -769,7 +785,15 @@ func genEx(t *rapid.T, want string, depth int) *Ex {
 		case 1:
 			e = mk(pick(t, "cmp", []string{"<", "<=", ">", ">="}), genEx(t, "num", d), genEx(t, "num", d))
 		case 2:
-			switch drawInt(t, 0, 2, "ink") {
+			switch drawInt(t, 0, 4, "ink") {
+			case 3:
+				e = mk("in", genEx(t, "str", d), &Ex{Op: "var", T: "smap", Name: pick(t, "smv", []string{"sm", "sm", "em"})})
+			case 4:
+				l := genEx(t, "int", d)
+				if l.Op == "var" && l.Name != "i3" && l.Name != "z" {
+					l = &Ex{Op: "lit", T: "int", Lit: strconv.Itoa(drawInt(t, 0, 4, "imk"))}
+				}
+				e = mk("in", l, &Ex{Op: "var", T: "imap", Name: "im"})
 			case 0:
 				e = mk("in", genEx(t, "str", d), genEx(t, "str", d))
 			case 1:
@@ -796,7 +820,7 @@ func genEx(t *rapid.T, want string, depth int) *Ex {
 
 var _ = register(&propSpec{
 	ID:   "C07.expr",
-	Rule: "well-typed expression trees (int/float/string/bool, context variables of every Go int/uint width and float32, integer literals with and without leading zeros (decimal either way), list membership) of depth <= 7, printed with minimal parentheses per the stated precedence/associativity, random operator spellings (and/&&, or/||, !=/<>, not/!) and spacing, rendered as {{ e }} and {% if e %}; compared with an independent evaluator of the tree (wrap-around int64, truncated division, float64 when a float is involved, concatenation, short-circuit, division/modulo by zero = execution error). Non-trivial: operators from >= 2 precedence levels or a same-level chain of >= 3 operands AND at least one operator printed without parentheses; distinct by printed source.",
+	Rule: "well-typed expression trees (int/float/string/bool, context variables of every Go int/uint width and float32, integer literals with and without leading zeros (decimal either way), list membership, key membership in string- and int-keyed maps) of depth <= 7, printed with minimal parentheses per the stated precedence/associativity, random operator spellings (and/&&, or/||, !=/<>, not/!) and spacing, rendered as {{ e }} and {% if e %}; compared with an independent evaluator of the tree (wrap-around int64, truncated division, float64 when a float is involved, concatenation, short-circuit, division/modulo by zero = execution error). Non-trivial: operators from >= 2 precedence levels or a same-level chain of >= 3 operands AND at least one operator printed without parentheses; distinct by printed source.",
 	Gen: func(t *rapid.T) any {
 		root := pick(t, "rootT", []string{"int", "float", "str", "bool", "bool", "truth"})
 		e := genEx(t, root, drawInt(t, 1, 7, "depth"))
